@@ -96,6 +96,7 @@ def rule_cell_values(ctx):
         ("text", "TEXT", "hello", None, "hello"),
         ("text that looks like a number", "TEXT", "3.0", None, "3.0"),
         ("empty", "EMPTY", "", None, ""),
+        ("text cell without a stored value (formula result never cached)", "TEXT", None, None, ""),
         ("whole number", "NUMBER", 3.0, None, "3"),
         ("negative whole number", "NUMBER", -12.0, None, "-12"),
         ("fraction", "NUMBER", 2.5, None, "2.5"),
@@ -176,7 +177,7 @@ def rule_cell_values(ctx):
 
 def _str_hook(interp, args, kwargs):
     (value,) = args
-    if isinstance(value, (str, int, float, datetime.time, datetime.datetime)):
+    if isinstance(value, (str, int, float, datetime.time, datetime.datetime)) or value is None:
         return str(value)
     raise Undecided("str(%r)" % (value,))
 
@@ -187,11 +188,16 @@ def rule_xlsx_writer(ctx):
 
     def cell(ch):
         rows = ch.choose("rows", [[["a"]], [["a", "b"], ["c", "d"]], [["a", "b", "c"], ["d"]]])
+        entry = ch.choose("written with", ["write_row", "write_rows"])
+        # xlsxwriter reports what it could not store through the return code: 0 = stored, -1 = outside the sheet,
+        # -2 = text longer than 32767 characters (truncated)
+        return_code = ch.choose("write_string returns", [0, -1, -2])
         log = []
 
         @stub
         def write_string(interp_, args, kwargs):
             log.append(("write_string",) + tuple(args))
+            return return_code
 
         @stub
         def write(interp_, args, kwargs):
@@ -203,13 +209,24 @@ def rule_xlsx_writer(ctx):
         from ..absint import ClassRef
 
         writer = interp.instantiate(ClassRef(model.cls("cutplace.rowio.XlsxRowWriter")), ["target.xlsx"], {})
-        for row in rows:
-            interp.call_function(model.func("cutplace.rowio.XlsxRowWriter.write_row"), [writer, row], {}, None)
+        key = "%s rows=%r write_string returns %d" % (entry, rows, return_code)
+        try:
+            if entry == "write_rows":
+                interp.call(interp.getattr(writer, "write_rows"), [rows], {})
+            else:
+                for row in rows:
+                    interp.call(interp.getattr(writer, "write_row"), [row], {})
+            outcome = "written"
+        except AbsRaise as raised:
+            outcome = "raise " + exc_name(raised.value)
         interp.call_function(model.func("cutplace.rowio.XlsxRowWriter.close"), [writer], {}, None)
+        if return_code != 0:
+            # an item the sheet cannot hold must not be dropped or cut silently: "reads back identically"
+            return (key, outcome, "raise DataFormatError")
         expected = [("write_string", y, x, item) for y, row in enumerate(rows) for x, item in enumerate(row)] + [("close",)]
-        return ("rows=%r" % (rows,), log, expected)
+        return (key, (outcome, log), ("written", expected))
 
-    decide(ctx, "O16.5", "XlsxRowWriter(write_string at line/cell)", "cutplace.rowio.XlsxRowWriter.write_row", cell, min_cells=3)
+    decide(ctx, "O16.5", "XlsxRowWriter(write_string at line/cell)", "cutplace.rowio.XlsxRowWriter.write_row", cell, min_cells=18, max_report=4)
 
 
 def rule_raw_rows_dispatch(ctx):
